@@ -215,6 +215,7 @@ def edge_dimension_only_strategy(tier):
         spec["vars"] = [v for v in spec["vars"] if v["kind"] != "edge"] + [
             {"name": "on_edges", "kind": "edge", "dims": ["@0"] + list(spec["extra"])[:1],
              "dtype": "f8", "fill": None}]
+        S.without_clashing_extra(spec)
         return case
     return build()
 
